@@ -44,6 +44,10 @@ namespace rkcommon {
           }
         };
 
+        // a task set's size is unsigned: a negative count would wrap around
+        if (nTasks <= 0)
+          return;
+
         LocalTask task(nTasks, std::forward<TASK_T>(fcn));
         scheduleTaskInternal(&task);
         waitInternal(&task);
